@@ -4,7 +4,10 @@ use rand::SeedableRng;
 use rand_chacha::ChaCha20Rng;
 use std::io::{BufRead, Write};
 
+#[macro_use]
 mod util;
+mod txgen;
+mod c01;
 mod c18;
 
 pub struct Out {
@@ -25,6 +28,7 @@ fn eval(case: &str) -> Out {
     let kind = case.split(' ').next().unwrap_or("");
     let r = std::panic::catch_unwind(|| match kind {
         "C18" => c18::eval(case),
+        "C01" => c01::eval(case),
         _ => Out::ok(format!("harnesserr unknown kind {}", kind)),
     });
     match r {
@@ -36,6 +40,7 @@ fn eval(case: &str) -> Out {
 fn gen(prop: &str, rng: &mut ChaCha20Rng, n: usize, thorough: bool) -> Vec<Case> {
     match prop {
         "C18" => c18::gen(rng, n, thorough),
+        "C01" => c01::gen(rng, n, thorough),
         _ => panic!("unknown property {}", prop),
     }
 }
